@@ -124,6 +124,14 @@ def typecheck(
                 symbol_table[op.args[0]] = Constant(0)
             else:
                 symbol_table[op.args[0]] = Constant(op.args[1])
+        elif (
+            op.name == "CONSTANT"
+            and len(op.args) == 2
+            and isinstance(op.args[0], str)
+            and isinstance(symbol_table.get(op.args[1]), Constant)
+        ):
+            # A constant defined in terms of an earlier constant.
+            symbol_table[op.args[0]] = Constant(symbol_table[op.args[1]])
 
     return (symbol_table, messages)
 
@@ -175,7 +183,10 @@ def get_labels(
         elif op.name == "CONSTANT":
             if len(op.args) == 2:
                 with suppress(ValueError):
-                    constants[op.args[0]] = Constant(op.args[1])
+                    value = op.args[1]
+                    if isinstance(value, str) and value in constants:
+                        value = constants[value]
+                    constants[op.args[0]] = Constant(value)
         elif op.name == "INTEGER":
             dc += 1
         elif op.name == "LP_STRING" or op.name == "TIGER_STRING":
